@@ -169,6 +169,26 @@ pub fn functions() -> Functions {
     f
 }
 
+/// `(node-type x)` replaced by a caller's own implementation, plus an extra function: the
+/// table of a *different* caller.  It must never leak into tables built with `functions()`.
+struct ShoutType;
+impl Function for ShoutType {
+    fn call(&self, graph: &mut Graph, _source: &str, parameters: &mut dyn Parameters) -> Result<Value, ExecutionError> {
+        let n = graph[parameters.param()?.into_syntax_node_ref()?];
+        parameters.finish()?;
+        Ok(Value::String(format!("<<{}>>", n.kind().to_uppercase())))
+    }
+}
+
+pub fn functions_of_another_caller() -> Functions {
+    let mut f = Functions::stdlib();
+    f.add(Identifier::from("node-type"), ShoutType);
+    f.add(Identifier::from("shout"), ShoutType);
+    f.add(Identifier::from("tick"), Tick);
+    f.add(Identifier::from("yield"), Yield);
+    f
+}
+
 pub fn language() -> tree_sitter::Language {
     tree_sitter_python::LANGUAGE.into()
 }
